@@ -38,6 +38,11 @@ def write(pid, spec, results, tier, seed, wall, nviol, other, known_hits, undeci
     for r in results:
         for f in r.get('failures', []):
             failed_names.add(f['obligation'])
+    # function queries that fail only because of a listed, open known finding are reported separately:
+    # they are neither counted as obligations of the proof nor as discharged
+    kf_funcs = set('%s::%s' % (k[1]['obligation'].split('::')[0], k[1]['function']) for k in known_hits)
+    kf_obl = [o for o in obligations if (not o['ok']) and o['name'] in kf_funcs]
+    obligations = [o for o in obligations if o not in kf_obl]
     n = len(obligations)
     ok = sum(1 for o in obligations if o['ok'])
     cov = {
@@ -55,6 +60,7 @@ def write(pid, spec, results, tier, seed, wall, nviol, other, known_hits, undeci
         'failed_obligations': sorted(failed_names),
         'failures_outside_this_property': [f['obligation'] for f in other],
         'known_findings_hit': [k[0]['what'] for k in known_hits],
+        'open_known_finding_obligations': [o['name'] for o in kf_obl],
         'undecided_units': [{'unit': r['unit'], 'reason': r['reason']} for r in undecided],
         'units': [{'unit': r['unit'], 'backend': r['backend'], 'status': r['status'], 'wall_s': round(r.get('wall_s', 0), 2),
                    'canaries': r.get('canaries', {})} for r in results],
